@@ -1262,11 +1262,21 @@ package gmars
 //@ trusted ForExpand
 //@   requires [C08] symbols == symsOf(as(lex, bufTokenReader).tokens)
 //@   modifies nothing
+// (assumed: a parser over a fresh token reader starts in a state satisfying its invariant)
 //@ trusted newParser
 //@   modifies nothing
-//@   ensures fresh(result)
-//@ trusted (*parser).parse
+//@   ensures fresh(result) && parserOK(result) && result.lex == lex && fresh(result.symbols) && fresh(result.references)
+//@   ensures arr(result.lines) == 0 && arr(result.currentLine.labels) == 0 && arr(result.currentLine.a) == 0 && arr(result.currentLine.b) == 0
+//@ trusted (*parser).validateSymbols
 //@   modifies nothing
+//@ func (*parser).parse
+//@   panics [C05]
+//@   requires parserOK(p)
+//@   modifies p.*, p.lines[*], p.symbols[*], p.references[*], p.currentLine.labels[*], p.currentLine.a[*], p.currentLine.b[*], ghost p.lex.*
+//@   loop 1
+//@     invariant parserOK(p) && parSame(p)
+//@     invariant [C05] state != 0 ==> parSt(state) && parPre(p, state)
+//@     decreases [C05] ite(state == 0, 0, 1 + parMu(p, state))
 
 //@ func newCompiler
 //@   panics [C05][C06]
@@ -1410,14 +1420,16 @@ package gmars
 //@ extern iface:tokenReader.NextToken
 //@   modifies ghost self.left, ghost self.ended
 //@   ensures self.left >= 0 && (!old(self.ended) ==> result.1 == nil && self.left < old(self.left) && self.ended == isTerminal(result.0.typ))
-//@   ensures old(self.ended) ==> self.ended && self.left == old(self.left)
+//@   ensures old(self.ended) ==> self.ended && self.left == old(self.left) && result.1 != nil
 
 //@ func (token).IsOp
 //@   panics [C05]
 //@   modifies nothing
+//@   ensures [C05] result ==> t.typ == tokText
 //@ func (token).IsAddressMode
 //@   panics [C05]
 //@   modifies nothing
+//@   ensures [C05] result ==> t.typ == tokSymbol
 //@ func (token).NoOperandsOk
 //@   panics [C05]
 //@   modifies nothing
@@ -1426,9 +1438,11 @@ package gmars
 //@   panics [C05]
 //@   modifies nothing
 //@   ensures [C08] result == pseudoWord(lower(t.val))
+//@ pure exprTermTyp(y int) = y == tokSymbol || y == tokNumber || y == tokText || y == tokParenL || y == tokParenR
 //@ func (token).IsExpressionTerm
 //@   panics [C05]
 //@   modifies nothing
+//@   ensures [C05] result == exprTermTyp(t.typ)
 //@ func (token).String
 //@   panics [C05]
 //@   modifies nothing
@@ -1444,161 +1458,238 @@ package gmars
 // to the output exactly as built
 //@ pure lineEmitted(p *parser) = len(p.lines) == old(len(p.lines)) + 1 && p.lines[len(p.lines) - 1] == p.currentLine
 //@ pure parserOK(p *parser) = p != nil && p.lex != nil && p.symbols != nil && p.references != nil
+//@      && p.lex.left >= 0 && (p.atEOF ==> p.lex.ended) && (p.lex.ended ==> isTerminal(p.nextToken.typ))
+// termination of the parser's driver (C05): every state stops or hands over to a state with a smaller measure: eight
+// times the unread input (plus one for the failing read after the last token) plus a weight of the state and the
+// pending token
+//@ pure parLeft(p *parser) = p.lex.left + ite(p.atEOF, 0, 1)
+//@ pure parW(st int, y int) = ite(st == parseLine, 7, ite(st == parseColon, ite(y == tokColon, 3, 5), ite(st == parseLabels, 4, ite(st == parseExprA || st == parseExprB || st == parsePseudoExpr, 2,
+//@      ite(st == parseComment, 0, 1)))))
+//@ pure parMu(p *parser, st int) = 8 * parLeft(p) + parW(st, p.nextToken.typ)
+//@ pure parSt(st int) = st == parseLine || st == parseEmptyLines || st == parseComment || st == parseLabels || st == parseColon || st == parsePseudoOp || st == parsePseudoExpr
+//@      || st == parseOp || st == parseModeA || st == parseExprA || st == parseComma || st == parseModeB || st == parseExprB
+// what a state may rely on about the pending token when it is entered
+//@ pure parPre(p *parser, st int) = (st == parseEmptyLines ==> p.nextToken.typ == tokNewline) && (st == parseComment ==> p.nextToken.typ == tokComment)
+//@      && (st == parseExprA || st == parseExprB || st == parsePseudoExpr ==> exprTermTyp(p.nextToken.typ))
+//@      && (st == parseOp || st == parsePseudoOp ==> p.nextToken.typ == tokText) && (st == parseModeA || st == parseModeB ==> p.nextToken.typ == tokSymbol)
+//@      && (st == parseComma ==> p.nextToken.typ == tokComma)
+// what no state changes: the input, the identity of the two symbol maps, and the backing arrays of the output
+// and of the line being built (kept, nil, or freshly allocated)
+//@ pure keptArr0(a int, a0 int) = a == a0 || a == 0 || fresh(a)
+//@ pure parSame(p *parser) = p.lex == old(p.lex) && p.symbols == old(p.symbols) && p.references == old(p.references) && keptArr0(arr(p.lines), old(arr(p.lines)))
+//@      && keptArr0(arr(p.currentLine.labels), old(arr(p.currentLine.labels))) && keptArr0(arr(p.currentLine.a), old(arr(p.currentLine.a))) && keptArr0(arr(p.currentLine.b), old(arr(p.currentLine.b)))
+//@ pure parStep(p *parser, res int, mu0 int) = parSame(p) && (res != 0 ==> parSt(res) && parPre(p, res) && parMu(p, res) < mu0)
 //@ func (*parser).next
 //@   panics [C05]
 //@   requires parserOK(p)
 //@   modifies p.atEOF, p.nextToken, p.line, ghost p.lex.*
 //@   ensures parserOK(p)
+//@   ensures [C05] !old(p.atEOF) ==> parLeft(p) < old(parLeft(p))
+//@   ensures [C05] old(p.atEOF) ==> parLeft(p) == old(parLeft(p)) && p.nextToken == old(p.nextToken) && result.typ == tokEOF
 //@ func (*parser).loadPredefinedSymbols
 //@   panics [C05]
 //@   requires p != nil && p.symbols != nil
 //@   modifies p.symbols[*]
 //@ func (*parser).consumeEmitLine
 //@   panics [C05]
-//@   requires parserOK(p)
+//@   requires parserOK(p) && nextState != 0
 //@   modifies p.*, p.lines[*], ghost p.lex.*
 //@   ensures parserOK(p)
+//@   ensures [C05] (result == 0 || result == nextState) && parSame(p)
+//@   ensures [C05] parLeft(p) <= old(parLeft(p)) && (!old(p.atEOF) ==> parLeft(p) < old(parLeft(p)))
 //@   ensures [C03] result != nil ==> lineEmitted(p) && result == nextState
 //@   ensures [C03] p.currentLine == old(p.currentLine){newlines: p.currentLine.newlines}
 //@ func parseLine
 //@   panics [C05]
-//@   requires parserOK(p)
+//@   requires parserOK(p) && parPre(p, parseLine)
 //@   modifies p.*, p.lines[*], p.symbols[*], p.references[*], p.currentLine.labels[*], p.currentLine.a[*], p.currentLine.b[*], ghost p.lex.*
 //@   ensures parserOK(p)
+//@   ensures [C05] parStep(p, result, old(parMu(p, parseLine)))
 //@ func parseEmptyLines
 //@   panics [C05]
-//@   requires parserOK(p)
+//@   requires parserOK(p) && parPre(p, parseEmptyLines)
 //@   modifies p.*, p.lines[*], p.symbols[*], p.references[*], p.currentLine.labels[*], p.currentLine.a[*], p.currentLine.b[*], ghost p.lex.*
 //@   ensures parserOK(p)
+//@   ensures [C05] parStep(p, result, old(parMu(p, parseEmptyLines)))
 //@   ensures [C03] lineEmitted(p) && result == parseLine
 //@   loop 1
 //@     invariant parserOK(p) && p.symbols == old(p.symbols) && p.references == old(p.references)
+//@     invariant parSame(p) && (parLeft(p) < old(parLeft(p)) || (parLeft(p) == old(parLeft(p)) && p.nextToken == old(p.nextToken)))
+//@     decreases [C05] parLeft(p)
 //@     invariant (fresh(arr(p.currentLine.a)) || arr(p.currentLine.a) == old(arr(p.currentLine.a))) && (fresh(arr(p.currentLine.b)) || arr(p.currentLine.b) == old(arr(p.currentLine.b)))
 //@ func parseComment
 //@   panics [C05]
-//@   requires parserOK(p)
+//@   requires parserOK(p) && parPre(p, parseComment)
 //@   modifies p.*, p.lines[*], p.symbols[*], p.references[*], p.currentLine.labels[*], p.currentLine.a[*], p.currentLine.b[*], ghost p.lex.*
 //@   ensures parserOK(p)
+//@   ensures [C05] parStep(p, result, old(parMu(p, parseComment)))
 //@   ensures [C03] p.currentLine.comment == old(p.nextToken.val) && p.currentLine.op == old(p.currentLine.op) && p.currentLine.typ == old(p.currentLine.typ)
 //@ func parseLabels
 //@   panics [C05]
-//@   requires parserOK(p)
+//@   requires parserOK(p) && parPre(p, parseLabels)
 //@   modifies p.*, p.lines[*], p.symbols[*], p.references[*], p.currentLine.labels[*], p.currentLine.a[*], p.currentLine.b[*], ghost p.lex.*
 //@   ensures parserOK(p)
+//@   ensures [C05] parStep(p, result, old(parMu(p, parseLabels)))
 // a word that is neither an opcode nor a colon is a label of the line
 //@   ensures [C03] result == parseLabels && old(p.nextToken.typ) != tokNewline && old(p.nextToken.typ) != tokComment ==>
 //@      len(p.currentLine.labels) == old(len(p.currentLine.labels)) + 1 && p.currentLine.labels[len(p.currentLine.labels) - 1] == old(p.nextToken.val)
 //@ func parseColon
 //@   panics [C05]
-//@   requires parserOK(p)
+//@   requires parserOK(p) && parPre(p, parseColon)
 //@   modifies p.*, p.lines[*], p.symbols[*], p.references[*], p.currentLine.labels[*], p.currentLine.a[*], p.currentLine.b[*], ghost p.lex.*
 //@   ensures parserOK(p)
+//@   ensures [C05] parStep(p, result, old(parMu(p, parseColon)))
 //@   loop 1
 //@     invariant parserOK(p) && p.symbols == old(p.symbols) && p.references == old(p.references)
+//@     invariant parSame(p) && (parLeft(p) < old(parLeft(p)) || (parLeft(p) == old(parLeft(p)) && p.nextToken == old(p.nextToken)))
+//@     decreases [C05] parLeft(p)
 //@     invariant (fresh(arr(p.currentLine.a)) || arr(p.currentLine.a) == old(arr(p.currentLine.a))) && (fresh(arr(p.currentLine.b)) || arr(p.currentLine.b) == old(arr(p.currentLine.b)))
 //@ func parsePseudoOp
 //@   panics [C05]
-//@   requires parserOK(p)
+//@   requires parserOK(p) && parPre(p, parsePseudoOp)
 //@   modifies p.*, p.lines[*], p.symbols[*], p.references[*], p.currentLine.labels[*], p.currentLine.a[*], p.currentLine.b[*], ghost p.lex.*
 //@   ensures parserOK(p)
+//@   ensures [C05] parStep(p, result, old(parMu(p, parsePseudoOp)))
 //@   ensures [C03] p.currentLine.op == old(p.nextToken.val) && p.currentLine.typ == linePseudoOp
 // END (in any letter case) ends the program: later lines are not read
 //@   ensures [C03] p.endSeen == (old(p.endSeen) || lower(old(p.nextToken.val)) == "end")
 //@   ensures [C03] result == parseLine ==> lineEmitted(p)
 //@ func parsePseudoExpr
 //@   panics [C05]
-//@   requires parserOK(p)
+//@   requires parserOK(p) && parPre(p, parsePseudoExpr)
 //@   modifies p.*, p.lines[*], p.symbols[*], p.references[*], p.currentLine.labels[*], p.currentLine.a[*], p.currentLine.b[*], ghost p.lex.*
 //@   ensures parserOK(p)
+//@   ensures [C05] parStep(p, result, old(parMu(p, parsePseudoExpr)))
 //@   ensures [C03] result == parseLine ==> lineEmitted(p)
 //@   loop 1
 //@     invariant parserOK(p) && p.symbols == old(p.symbols) && p.references == old(p.references)
+//@     invariant parSame(p) && (parLeft(p) < old(parLeft(p)) || (parLeft(p) == old(parLeft(p)) && p.nextToken == old(p.nextToken)))
+//@     decreases [C05] parLeft(p)
 //@     invariant (fresh(arr(p.currentLine.a)) || arr(p.currentLine.a) == old(arr(p.currentLine.a))) && (fresh(arr(p.currentLine.b)) || arr(p.currentLine.b) == old(arr(p.currentLine.b)))
 //@ func parseOp
 //@   panics [C05]
-//@   requires parserOK(p)
+//@   requires parserOK(p) && parPre(p, parseOp)
 //@   modifies p.*, p.lines[*], p.symbols[*], p.references[*], p.currentLine.labels[*], p.currentLine.a[*], p.currentLine.b[*], ghost p.lex.*
 //@   ensures parserOK(p)
+//@   ensures [C05] parStep(p, result, old(parMu(p, parseOp)))
 //@   ensures [C03] p.currentLine.op == old(p.nextToken.val) && p.currentLine.typ == lineInstruction && p.currentLine.codeLine == old(p.codeLine)
 //@   ensures [C03] old(p.codeLine) < 4294967296 ==> p.codeLine == old(p.codeLine) + 1
 //@ func parseModeA
 //@   panics [C05]
-//@   requires parserOK(p)
+//@   requires parserOK(p) && parPre(p, parseModeA)
 //@   modifies p.*, p.lines[*], p.symbols[*], p.references[*], p.currentLine.labels[*], p.currentLine.a[*], p.currentLine.b[*], ghost p.lex.*
 //@   ensures parserOK(p)
+//@   ensures [C05] parStep(p, result, old(parMu(p, parseModeA)))
 //@   ensures [C03] p.currentLine.amode == old(p.nextToken.val) && p.currentLine.bmode == old(p.currentLine.bmode) && p.currentLine.op == old(p.currentLine.op)
 //@ func parseExprA
 //@   panics [C05]
-//@   requires parserOK(p)
+//@   requires parserOK(p) && parPre(p, parseExprA)
 //@   modifies p.*, p.lines[*], p.symbols[*], p.references[*], p.currentLine.labels[*], p.currentLine.a[*], p.currentLine.b[*], ghost p.lex.*
 //@   ensures parserOK(p)
+//@   ensures [C05] parStep(p, result, old(parMu(p, parseExprA)))
 //@   ensures [C03] result == parseLine ==> lineEmitted(p)
 //@   ensures [C03] p.err == nil && (p.nextToken.typ == tokNewline || p.nextToken.typ == tokEOF) ==> result == parseLine
 //@   loop 1
 //@     invariant parserOK(p) && p.symbols == old(p.symbols) && p.references == old(p.references)
+//@     invariant parSame(p) && (parLeft(p) < old(parLeft(p)) || (parLeft(p) == old(parLeft(p)) && p.nextToken == old(p.nextToken)))
+//@     decreases [C05] parLeft(p)
 //@     invariant (fresh(arr(p.currentLine.a)) || arr(p.currentLine.a) == old(arr(p.currentLine.a))) && (fresh(arr(p.currentLine.b)) || arr(p.currentLine.b) == old(arr(p.currentLine.b)))
 //@ func parseComma
 //@   panics [C05]
-//@   requires parserOK(p)
+//@   requires parserOK(p) && parPre(p, parseComma)
 //@   modifies p.*, p.lines[*], p.symbols[*], p.references[*], p.currentLine.labels[*], p.currentLine.a[*], p.currentLine.b[*], ghost p.lex.*
 //@   ensures parserOK(p)
+//@   ensures [C05] parStep(p, result, old(parMu(p, parseComma)))
 //@ func parseModeB
 //@   panics [C05]
-//@   requires parserOK(p)
+//@   requires parserOK(p) && parPre(p, parseModeB)
 //@   modifies p.*, p.lines[*], p.symbols[*], p.references[*], p.currentLine.labels[*], p.currentLine.a[*], p.currentLine.b[*], ghost p.lex.*
 //@   ensures parserOK(p)
+//@   ensures [C05] parStep(p, result, old(parMu(p, parseModeB)))
 //@   ensures [C03] p.currentLine.bmode == old(p.nextToken.val) && p.currentLine.amode == old(p.currentLine.amode) && p.currentLine.op == old(p.currentLine.op)
 //@ func parseExprB
 //@   panics [C05]
-//@   requires parserOK(p)
+//@   requires parserOK(p) && parPre(p, parseExprB)
 //@   modifies p.*, p.lines[*], p.symbols[*], p.references[*], p.currentLine.labels[*], p.currentLine.a[*], p.currentLine.b[*], ghost p.lex.*
 //@   ensures parserOK(p)
+//@   ensures [C05] parStep(p, result, old(parMu(p, parseExprB)))
 //@   ensures [C03] result == parseLine ==> lineEmitted(p)
 //@   ensures [C03] p.err == nil && (p.nextToken.typ == tokEOF) ==> result == parseLine
 //@   loop 1
 //@     invariant parserOK(p) && p.symbols == old(p.symbols) && p.references == old(p.references)
+//@     invariant parSame(p) && (parLeft(p) < old(parLeft(p)) || (parLeft(p) == old(parLeft(p)) && p.nextToken == old(p.nextToken)))
+//@     decreases [C05] parLeft(p)
 //@     invariant (fresh(arr(p.currentLine.a)) || arr(p.currentLine.a) == old(arr(p.currentLine.a))) && (fresh(arr(p.currentLine.b)) || arr(p.currentLine.b) == old(arr(p.currentLine.b)))
 
 // symbol scanner
 //@ pure scannerOK(p *symbolScanner) = p != nil && p.lex != nil && p.symbols != nil
+//@      && p.lex.left >= 0 && (p.atEOF == p.lex.ended) && (p.atEOF ==> isTerminal(p.nextToken.typ))
+// termination of the scanner's driver (C05): every state stops or hands over to a state with a smaller measure
+// (three times the unread input plus a weight of the state)
+//@ pure scanLeft(p *symbolScanner) = p.lex.left + ite(p.atEOF, 0, 1)
+//@ pure scanW(st int) = ite(st == scanEquValue, 3, ite(st == scanLine, 2, ite(st == scanLabels, 1, 0)))
+//@ pure scanMu(p *symbolScanner, st int) = 3 * scanLeft(p) + scanW(st)
+//@ pure scanSt(st int) = st == scanLine || st == scanLabels || st == scanConsumeLine || st == scanEquValue
+// what no state changes: the input, the symbol table's identity, and the buffers' backing arrays (kept or fresh)
+//@ pure scanSame(p *symbolScanner) = p.lex == old(p.lex) && p.symbols == old(p.symbols) && keptArr(arr(p.labelBuf), old(arr(p.labelBuf))) && keptArr(arr(p.valBuf), old(arr(p.valBuf)))
+//@ pure scanStep(p *symbolScanner, me int, res int, mu0 int) = scanSame(p) && (res != 0 ==> scanSt(res) && scanMu(p, res) < mu0)
 //@ func (*symbolScanner).next
 //@   panics [C05]
 //@   requires scannerOK(p)
 //@   modifies p.atEOF, p.nextToken, ghost p.lex.*
 //@   ensures scannerOK(p)
+//@   ensures [C05] !old(p.atEOF) ==> scanLeft(p) < old(scanLeft(p))
+//@   ensures [C05] old(p.atEOF) ==> scanLeft(p) == old(scanLeft(p)) && p.nextToken == old(p.nextToken)
 //@ func (*symbolScanner).consume
 //@   panics [C05]
-//@   requires scannerOK(p)
+//@   requires scannerOK(p) && nextState != 0
 //@   modifies p.atEOF, p.nextToken, ghost p.lex.*
 //@   ensures scannerOK(p)
+//@   ensures [C05] result == 0 || result == nextState
+//@   ensures [C05] !old(p.atEOF) ==> scanLeft(p) < old(scanLeft(p))
+//@   ensures [C05] old(p.atEOF) ==> scanLeft(p) == old(scanLeft(p)) && p.nextToken == old(p.nextToken)
+//@ func (*symbolScanner).ScanInput
+//@   panics [C05]
+//@   requires scannerOK(p)
+//@   modifies p.*, p.symbols[*], p.labelBuf[*], p.valBuf[*], ghost p.lex.*
+//@   loop 1
+//@     invariant scannerOK(p) && scanSame(p)
+//@     invariant [C05] state != 0 ==> scanSt(state)
+//@     decreases [C05] ite(state == 0, 0, 1 + scanMu(p, state))
 //@ func scanLine
 //@   panics [C05]
 //@   requires scannerOK(p)
 //@   modifies p.*, p.symbols[*], p.labelBuf[*], p.valBuf[*], ghost p.lex.*
 //@   ensures scannerOK(p)
+//@   ensures [C05] scanStep(p, scanLine, result, old(scanMu(p, scanLine)))
 //@ func scanLabels
 //@   panics [C05]
 //@   requires scannerOK(p)
 //@   modifies p.*, p.symbols[*], p.labelBuf[*], p.valBuf[*], ghost p.lex.*
 //@   ensures scannerOK(p)
+//@   ensures [C05] scanStep(p, scanLabels, result, old(scanMu(p, scanLabels)))
 //@ func scanConsumeLine
 //@   panics [C05]
 //@   requires scannerOK(p)
 //@   modifies p.*, p.symbols[*], p.labelBuf[*], p.valBuf[*], ghost p.lex.*
 //@   ensures scannerOK(p)
+//@   ensures [C05] scanStep(p, scanConsumeLine, result, old(scanMu(p, scanConsumeLine)))
 //@ func scanEquValue
 //@   panics [C05][C08]
 //@   requires scannerOK(p)
 //@   modifies p.*, p.symbols[*], p.labelBuf[*], p.valBuf[*], ghost p.lex.*
 //@   ensures scannerOK(p)
+//@   ensures [C05] scanStep(p, scanEquValue, result, old(scanMu(p, scanEquValue)))
 // a recorded EQU value is never written again: the scanner goes on with fresh buffers
 //@   ensures [C08] p.err == nil ==> fresh(arr(p.valBuf)) && fresh(arr(p.labelBuf))
 //@   loop 1
 //@     invariant scannerOK(p) && p.symbols == old(p.symbols) && (fresh(arr(p.valBuf)) || arr(p.valBuf) == old(arr(p.valBuf)))
-//@     invariant p.err == old(p.err) && p.labelBuf == old(p.labelBuf)
+//@     invariant p.err == old(p.err) && p.labelBuf == old(p.labelBuf) && p.lex == old(p.lex) && scanLeft(p) <= old(scanLeft(p))
+//@     decreases [C05] scanLeft(p)
 //@   loop 2
 //@     invariant scannerOK(p) && p.symbols == old(p.symbols) && 0 - 1 <= rangeindex && rangeindex < len(p.labelBuf)
-//@     invariant p.err == old(p.err)
+//@     invariant p.err == old(p.err) && p.lex == old(p.lex) && scanLeft(p) <= old(scanLeft(p))
+//@     invariant keptArr(arr(p.labelBuf), old(arr(p.labelBuf))) && keptArr(arr(p.valBuf), old(arr(p.valBuf)))
 // every label of the EQU line is bound to the operand text collected from that line
 //@     invariant [C08] forall k :: 0 <= k && k <= rangeindex ==> has(p.symbols, p.labelBuf[k]) && p.symbols[p.labelBuf[k]] == p.valBuf
 
